@@ -72,8 +72,8 @@ def splat_families(ctx: Ctx):
                 arg_names = kw(s_, "args")
     need(arg_names, "u_and_f is not given a signature by with_signature(args=...)")
     for s_ in walk(arg_names):
-        if callee_name(s_) == "lcm.functools.get_union_of_arguments" and s_[2]:
-            rel = s_[2][0]
+        if callee_name(s_) == "lcm.functools.get_union_of_arguments":
+            rel = s_[2][0] if s_[2] else kw(s_, "list_of_functions")
     need(rel is not None, "the signature of u_and_f is not the union of the arguments of component functions")
     # the closures are defined under is_last_period / not is_last_period: the list was specialised per branch; use
     # the un-specialised definition from the factory frame
